@@ -6,6 +6,7 @@ void init(int workers, int reported_concurrency = 0);   // fresh scheduler with 
 void finish();                                           // fails the execution if tasks were left behind or leaked
 bool interleave();                                       // inside a body: optionally let another idle worker run one task now
 bool nested();                                           // inside a body: optionally the CURRENT worker runs one task now (a nested wait inside the body re-enters the dispatcher: own pool, mail, steal, stream)
+void enable_nested(bool on);                             // nested() is a no-op (and no choice point) when off; init() sets it from the leg parameter nested=0|1 (default 0)
 int  run_others(int n);                                   // inside a body: other idle workers run up to n tasks now (setup for 'stalled body' variants); returns how many ran
 void set_idle_hook(bool (*hook)());                        // called when a wait has no task left to run: a foreign thread's progress (async activity); returns true if it did something
 int  current_worker();
